@@ -2,4 +2,4 @@ SPECIFICATION TraceSpec
 CONSTRAINT Progress
 POSTCONDITION Accepted
 CHECK_DEADLOCK FALSE
-INVARIANTS Validated RoundTrip EditSafe
+INVARIANTS Validated RoundTrip EditSafe Derived
